@@ -58,6 +58,7 @@ TABLE = [
     ("digit runs are only skipped when the leading class", "C19 C02", "`[0-5]+(?:[a-c]|\\.\\d)` on \"65a\": no match (the rest of the digit run was skipped although 6 is outside the class)"),
     ("reverse-suffix-set Find reports the leftmost match", "C19 C02", "`[a-z]+\\.(txt|log)` on \"a.txt b.log\": FindIndex [6 11] (last suffix candidate kept)"),
     ("anchored-literal matcher encodes U+0080..U+00FF", "C19 C01", "`^é.*x$` on \"éax\": no match (é stored as the byte 0xE9); `^a.*[à-ÿ]+x$` tested code points as bytes"),
+    ("reverse-suffix-set search takes the match end", "C02 C04", "`.+(?:aaa|abb)` on \"é\" + 18 x \"a\": FindAllIndex [0 5] (end of the first suffix candidate, not of the greedy match)"),
     ("only accepts branches it can match exactly", "C19 C02", "`^([à-ÿ]+|x\\d)` on \"x1\" = [0 1]; `^(foo|bar|baz)` matched \"bax\""),
 ]
 
